@@ -7,6 +7,7 @@ import z3
 
 from symx.api import Harness, Raised, register
 
+from .common import getcell as common_getcell
 from .common import consecutive, in_bin, rising_pairs, snapnd, tolerance_band, zsum
 
 
@@ -150,10 +151,7 @@ class C02Facade(Harness):
             last = j == shape[k] - 1
             return in_bin(v[i][k], L[k][j], R[k][j], last and p["inc"][k])
 
-        def getcell(a, idx):
-            for i in idx:
-                a = a[i]
-            return a
+        getcell = common_getcell
 
         cells = []
         if p["weights"] == "sreal":
